@@ -4,9 +4,11 @@
 -/
 import Mathlib.Tactic.Linarith
 import Mathlib.Tactic.SplitIfs
+import Mathlib.Tactic.FieldSimp
 import Mathlib.Algebra.Order.Floor.Ring
 import Resvg.Cli.FitTo
 import Resvg.Lemmas.Basic
+import Resvg.Props.C08
 
 namespace Resvg.Props.C20
 open Resvg Resvg.Cli
@@ -48,6 +50,54 @@ theorem C20_width_rule (w h W : Nat) (hw : 0 < w) (hh : 0 < h) (hW : 0 < W) :
       unfold asU32; exact_mod_cast Int.toNat_of_nonneg (le_of_lt hpos)
     rw [this]; exact hc2
 
+/-- **-h H**: symmetric to the width rule. -/
+theorem C20_height_rule (w h H : Nat) (hw : 0 < w) (hh : 0 < h) (hH : 0 < H) :
+    ∃ W, fitToSize id (.height H) (w, h) = some (W, H) ∧
+      (H : Rat) * w / h ≤ W ∧ (W : Rat) < (H : Rat) * w / h + 1 := by
+  have hq : (0 : Rat) < (H : Rat) * w / h := by positivity
+  have hc := ceilI_ge ((H : Rat) * w / h)
+  have hc2 := ceilI_lt ((H : Rat) * w / h)
+  have hpos : 0 < ceilI ((H : Rat) * w / h) := by
+    have : (0 : Rat) < (ceilI ((H : Rat) * w / h) : Rat) := lt_of_lt_of_le hq hc
+    exact_mod_cast this
+  have hcast : ((asU32 (ceilI ((H : Rat) * w / h)) : Nat) : Rat) = (ceilI ((H : Rat) * w / h) : Rat) := by
+    unfold asU32; exact_mod_cast Int.toNat_of_nonneg (le_of_lt hpos)
+  refine ⟨asU32 (ceilI ((H : Rat) * w / h)), ?_, ?_, ?_⟩
+  · simp only [fitToSize, scaleToHeight, id, intSize]
+    have : asU32 (ceilI ((H : Rat) * w / h)) ≠ 0 := by
+      unfold asU32; omega
+    simp [Nat.pos_iff_ne_zero.mp hH, this]
+  · rw [hcast]; exact hc
+  · rw [hcast]; exact hc2
+
+/-- **-z Z**: both sides are the document's sides times `Z`, rounded to the nearest pixel
+    (so each differs from the exact product by at most half a pixel), whenever neither rounds to 0. -/
+theorem C20_zoom_rule (w h : Nat) (z : Rat) (ow oh : Nat)
+    (hres : fitToSize id (.zoom z) (w, h) = some (ow, oh)) :
+    |(ow : Rat) - w * z| ≤ 1 / 2 ∧ |(oh : Rat) - h * z| ≤ 1 / 2 := by
+  simp only [fitToSize, scaleBy, id, intSize] at hres
+  by_cases h0 : asU32 (Writer.roundHalfAway ((w : Rat) * z)) = 0 ∨ asU32 (Writer.roundHalfAway ((h : Rat) * z)) = 0
+  · simp [h0] at hres
+  · simp only [h0, if_false] at hres
+    push_neg at h0
+    have r1 := C08.roundHalfAway_close ((w : Rat) * z)
+    have r2 := C08.roundHalfAway_close ((h : Rat) * z)
+    have p1 : 0 ≤ Writer.roundHalfAway ((w : Rat) * z) := by
+      by_contra hc
+      have : asU32 (Writer.roundHalfAway ((w : Rat) * z)) = 0 := by unfold asU32; omega
+      exact h0.1 this
+    have p2 : 0 ≤ Writer.roundHalfAway ((h : Rat) * z) := by
+      by_contra hc
+      have : asU32 (Writer.roundHalfAway ((h : Rat) * z)) = 0 := by unfold asU32; omega
+      exact h0.2 this
+    have c1 : ((asU32 (Writer.roundHalfAway ((w : Rat) * z)) : Nat) : Rat) = (Writer.roundHalfAway ((w : Rat) * z) : Rat) := by
+      unfold asU32; exact_mod_cast Int.toNat_of_nonneg p1
+    have c2 : ((asU32 (Writer.roundHalfAway ((h : Rat) * z)) : Nat) : Rat) = (Writer.roundHalfAway ((h : Rat) * z) : Rat) := by
+      unfold asU32; exact_mod_cast Int.toNat_of_nonneg p2
+    simp only [Option.some.injEq, Prod.mk.injEq] at hres
+    rw [← hres.1, ← hres.2, c1, c2]
+    exact ⟨r1, r2⟩
+
 /-- **-w W -h H**: the output fits into `W × H` and touches it on one side. -/
 theorem C20_size_rule_fits (w h W H : Nat) (hw : 0 < w) (hh : 0 < h) (hW : 0 < W) (hH : 0 < H) :
     ∃ ow oh, fitToSize id (.size W H) (w, h) = some (ow, oh) ∧ (ow = W ∨ oh = H) ∧ ow ≤ W := by
@@ -68,5 +118,76 @@ theorem C20_zero_refused (s : Nat × Nat) (h : Nat) :
 example : fitToSize id (.width 300) (200, 100) = some (300, 150) := by decide +kernel
 example : fitToSize id (.size 50 50) (200, 100) = some (50, 25) := by decide +kernel
 example : fitToSize id (.zoom (3 / 2)) (33, 11) = some (50, 17) := by decide +kernel
+
+/-! ### `--export-id`: which area the size options apply to (fix 082ba5b) -/
+
+theorem toIntSize_nat (w h : Nat) (hw : 0 < w) (hh : 0 < h) : toIntSize (w : Rat) (h : Rat) = (w, h) := by
+  have e1 : Writer.roundHalfAway ((w : Nat) : Rat) = (w : Int) := by
+    simpa using C08.roundHalfAway_int (w : Int)
+  have e2 : Writer.roundHalfAway ((h : Nat) : Rat) = (h : Int) := by
+    simpa using C08.roundHalfAway_int (h : Int)
+  simp only [toIntSize, e1, e2, asU32, Int.toNat_natCast]
+  congr 1 <;> omega
+
+/-- **--export-id without --export-area-page**: the size options are applied to the object's box, and the
+    object is rendered with exactly the scale that maps its box onto the whole written image — for every
+    size option that is accepted. -/
+theorem C20_export_object_fills_image (f : FitTo) (page : Nat × Nat) (bx by_ : Rat) (bw bh : Nat)
+    (hw : 0 < bw) (hh : 0 < bh) (p : ExportPlan)
+    (hp : exportPlan id f page bx by_ bw bh false = some p) :
+    fitToSize id f (bw, bh) = some p.canvas ∧
+    (bw : Rat) * p.scale.1 = p.canvas.1 ∧ (bh : Rat) * p.scale.2 = p.canvas.2 ∧ p.offset = (0, 0) := by
+  simp only [exportPlan, Bool.false_eq_true, if_false, toIntSize_nat bw bh hw hh] at hp
+  cases hsz : fitToSize id f (bw, bh) with
+  | none => simp [hsz] at hp
+  | some o =>
+    simp only [hsz, Option.some.injEq] at hp
+    subst hp
+    have hw' : (bw : Rat) ≠ 0 := by exact_mod_cast (Nat.pos_iff_ne_zero.mp hw)
+    have hh' : (bh : Rat) ≠ 0 := by exact_mod_cast (Nat.pos_iff_ne_zero.mp hh)
+    refine ⟨rfl, ?_, ?_, rfl⟩
+    · simp only [fitToScale, hsz, id]; field_simp
+    · simp only [fitToScale, hsz, id]; field_simp
+
+/-- **--export-id --export-area-page**: the written image has the size, and the object the scale, of the
+    ordinary rendering of the page with the same options; the object sits at its box scaled by that
+    scale, truncated to a pixel (so less than a pixel from the exact position, toward the origin). -/
+theorem C20_export_page_geometry (f : FitTo) (page : Nat × Nat) (bx by_ bw bh : Rat) (p : ExportPlan)
+    (hp : exportPlan id f page bx by_ bw bh true = some p) :
+    fitToSize id f page = some p.canvas ∧ p.scale = fitToScale id f page ∧
+    ((p.offset.1 : Rat) ≤ bx * p.scale.1 ∧ bx * p.scale.1 < p.offset.1 + 1 ∨ bx * p.scale.1 < 0) ∧
+    ((p.offset.2 : Rat) ≤ by_ * p.scale.2 ∧ by_ * p.scale.2 < p.offset.2 + 1 ∨ by_ * p.scale.2 < 0) := by
+  simp only [exportPlan, if_true] at hp
+  cases hsz : fitToSize id f page with
+  | none => simp [hsz] at hp
+  | some o =>
+    simp only [hsz, Option.some.injEq] at hp
+    subst hp
+    refine ⟨rfl, rfl, ?_, ?_⟩
+    · simp only [id, truncI]
+      by_cases h0 : 0 ≤ bx * (fitToScale id f page).1
+      · left
+        simp only [h0, if_true, Lemmas.rat_floor_eq]
+        exact ⟨Int.floor_le _, Int.lt_floor_add_one _⟩
+      · right; exact not_le.mp h0
+    · simp only [id, truncI]
+      by_cases h0 : 0 ≤ by_ * (fitToScale id f page).2
+      · left
+        simp only [h0, if_true, Lemmas.rat_floor_eq]
+        exact ⟨Int.floor_le _, Int.lt_floor_add_one _⟩
+      · right; exact not_le.mp h0
+
+/-- before the fix: `-w 60` on a 20×10 object of a 120×100 page wrote a 60×30 image in which the object
+    covered 10×5 pixels, and `-z 2 --export-area-page` placed the object at (40, 30) instead of (80, 60) -/
+theorem C20_old_export_wrong :
+    (exportPlanOld id (.width 60) (120, 100) 40 30 20 10 false).map (fun p => (p.canvas, p.painted 20 10))
+      = some ((60, 30), (0, 0, 10, 5)) ∧
+    (exportPlan id (.width 60) (120, 100) 40 30 20 10 false).map (fun p => (p.canvas, p.painted 20 10))
+      = some ((60, 30), (0, 0, 60, 30)) ∧
+    (exportPlanOld id (.zoom 2) (120, 100) 40 30 20 10 true).map (fun p => p.painted 20 10)
+      = some (40, 30, 80, 50) ∧
+    (exportPlan id (.zoom 2) (120, 100) 40 30 20 10 true).map (fun p => p.painted 20 10)
+      = some (80, 60, 120, 80) := by
+  refine ⟨?_, ?_, ?_, ?_⟩ <;> decide +kernel
 
 end Resvg.Props.C20
